@@ -103,3 +103,10 @@ add("C15",
     "Trusted: CrossHair/z3; ideal signature scheme replacing the RSA primitives; call-granularity interleavings.",
     "DESIGN.md 3/C15")
 NOT_APPLICABLE.pop("C15", None)
+
+add("C19",
+    "CrossHair symbolic execution of Cache operation histories (set/reset/delete then a query battery: get_identity, get, active, entities, subjects) with symbolic expiry instants and clock, compared with a reference model",
+    "All 2-op and sampled 3-op histories (quick; all 3-op and sampled 4-op in thorough) over 9 operation codes on two subjects differing in one NameID field and two sources: every query result equals the reference model for every ordering of three symbolic expiries and the clock (ties included), with expiry checking on and off.",
+    "Trusted: CrossHair/z3; clock model; in-memory cache only (shelve-backed variant is I/O, outside); expiry 0 = reset marker excluded.",
+    "DESIGN.md 3/C19")
+NOT_APPLICABLE.pop("C19", None)
